@@ -4,7 +4,9 @@
 
 #[cfg(test)]
 use chrono::NaiveDateTime;
-use chrono::{DateTime, Datelike, Duration, Local, TimeZone, Timelike};
+use chrono::{
+    DateTime, Datelike, Duration, Local, LocalResult, NaiveDate, NaiveTime, TimeZone, Timelike,
+};
 #[cfg(test)]
 use mock_instant::{SystemTime, UNIX_EPOCH};
 use rand::Rng;
@@ -217,71 +219,86 @@ impl TimeTrigger {
         interval: TimeTriggerInterval,
         modulate: bool,
     ) -> DateTime<Local> {
-        let year = current.year();
-        if let TimeTriggerInterval::Year(n) = interval {
-            let n = n as i32;
-            let increment = if modulate { n - year % n } else { n };
-            let year_new = year + increment;
-            return Local.with_ymd_and_hms(year_new, 1, 1, 0, 0, 0).unwrap();
+        let increment = |n: i64, position: i64| if modulate { n - position % n } else { n };
+        let naive = current.naive_local();
+
+        // Units shorter than a day are truncated and advanced in elapsed time. A local time never
+        // has to be mapped back to an instant, which is impossible inside a DST gap and ambiguous
+        // inside an overlap.
+        let second_start =
+            current - Duration::nanoseconds(i64::from(current.timestamp_subsec_nanos()));
+        let minute_start = second_start - Duration::seconds(i64::from(naive.second()));
+        let hour_start = minute_start - Duration::minutes(i64::from(naive.minute()));
+        match interval {
+            TimeTriggerInterval::Second(n) => {
+                return second_start + Duration::seconds(increment(n, naive.second().into()));
+            }
+            TimeTriggerInterval::Minute(n) => {
+                return minute_start + Duration::minutes(increment(n, naive.minute().into()));
+            }
+            TimeTriggerInterval::Hour(n) => {
+                return hour_start + Duration::hours(increment(n, naive.hour().into()));
+            }
+            _ => {}
         }
 
-        if let TimeTriggerInterval::Month(n) = interval {
-            let month0 = current.month0();
-            let n = n as u32;
-            let increment = if modulate { n - month0 % n } else { n };
-            let num_months = (year as u32) * 12 + month0;
-            let num_months_new = num_months + increment;
-            let year_new = (num_months_new / 12) as i32;
-            let month_new = (num_months_new) % 12 + 1;
-            return Local
-                .with_ymd_and_hms(year_new, month_new, 1, 0, 0, 0)
-                .unwrap();
-        }
+        // Longer units are computed on the local calendar, so that the boundary is local midnight
+        // even when the UTC offset changes on the way (a day is then 23 or 25 hours long).
+        let date = naive.date();
+        let boundary = match interval {
+            TimeTriggerInterval::Day(n) => {
+                date + Duration::days(increment(n, date.ordinal0().into()))
+            }
+            TimeTriggerInterval::Week(n) => {
+                // Monday is the first day of the week
+                let monday = date - Duration::days(date.weekday().num_days_from_monday().into());
+                monday + Duration::weeks(increment(n, date.iso_week().week0().into()))
+            }
+            TimeTriggerInterval::Month(n) => {
+                let months = i64::from(date.year()) * 12
+                    + i64::from(date.month0())
+                    + increment(n, date.month0().into());
+                NaiveDate::from_ymd_opt(
+                    months.div_euclid(12) as i32,
+                    months.rem_euclid(12) as u32 + 1,
+                    1,
+                )
+                .expect("month out of range")
+            }
+            TimeTriggerInterval::Year(n) => {
+                let year = i64::from(date.year()) + increment(n, date.year().into());
+                NaiveDate::from_ymd_opt(year as i32, 1, 1).expect("year out of range")
+            }
+            _ => unreachable!("shorter units return above"),
+        };
+        TimeTrigger::local_midnight(boundary, current)
+    }
 
-        let month = current.month();
-        let day = current.day();
-        if let TimeTriggerInterval::Week(n) = interval {
-            let week0 = current.iso_week().week0() as i64;
-            let weekday = current.weekday().num_days_from_monday() as i64; // Monday is the first day of the week
-            let time = Local.with_ymd_and_hms(year, month, day, 0, 0, 0).unwrap();
-            let increment = if modulate { n - week0 % n } else { n };
-            return time + Duration::weeks(increment) - Duration::days(weekday);
+    /// The instant at which the local calendar shows midnight of `date`, which lies after `after`.
+    fn local_midnight(date: NaiveDate, after: DateTime<Local>) -> DateTime<Local> {
+        let midnight = date.and_time(NaiveTime::MIN);
+        match Local.from_local_datetime(&midnight) {
+            LocalResult::Single(instant) => instant,
+            // the clocks are set back across midnight: take the first occurrence still ahead
+            LocalResult::Ambiguous(first, second) => {
+                if first > after {
+                    first
+                } else {
+                    second
+                }
+            }
+            // the clocks are set forward across midnight: the day starts where the gap ends
+            LocalResult::None => {
+                let mut probe = midnight;
+                for _ in 0..2 * 24 * 60 {
+                    probe += Duration::minutes(1);
+                    if let Some(instant) = Local.from_local_datetime(&probe).earliest() {
+                        return instant;
+                    }
+                }
+                after + Duration::days(1)
+            }
         }
-
-        if let TimeTriggerInterval::Day(n) = interval {
-            let ordinal0 = current.ordinal0() as i64;
-            let time = Local.with_ymd_and_hms(year, month, day, 0, 0, 0).unwrap();
-            let increment = if modulate { n - ordinal0 % n } else { n };
-            return time + Duration::days(increment);
-        }
-
-        let hour = current.hour();
-        if let TimeTriggerInterval::Hour(n) = interval {
-            let time = Local
-                .with_ymd_and_hms(year, month, day, hour, 0, 0)
-                .unwrap();
-            let increment = if modulate { n - (hour as i64) % n } else { n };
-            return time + Duration::hours(increment);
-        }
-
-        let min = current.minute();
-        if let TimeTriggerInterval::Minute(n) = interval {
-            let time = Local
-                .with_ymd_and_hms(year, month, day, hour, min, 0)
-                .unwrap();
-            let increment = if modulate { n - (min as i64) % n } else { n };
-            return time + Duration::minutes(increment);
-        }
-
-        let sec = current.second();
-        if let TimeTriggerInterval::Second(n) = interval {
-            let time = Local
-                .with_ymd_and_hms(year, month, day, hour, min, sec)
-                .unwrap();
-            let increment = if modulate { n - (sec as i64) % n } else { n };
-            return time + Duration::seconds(increment);
-        }
-        panic!("Should not reach here!");
     }
 }
 
